@@ -304,6 +304,12 @@ def path(n, fn=None):
     dereference and address-of are transparent (the path names the object
     reached, whichever way it is spelled).
     """
+    s0 = n.strip()
+    if s0.kind == "DeclRefExpr" and s0.d.get("d") in s0.fn.bind_map():
+        # the parameter of a folded helper: the object its argument names -- or, when the argument is a value that has no
+        # name (`on_path(_root.load(acquire))`), the parameter itself as the local that holds it
+        p = path(s0.fn.node(s0.fn.bind_map()[s0.d["d"]]))
+        return p if p is not None else ("v:%s#%d" % (s0.n, s0.d["d"]),)
     n = std_unwrap(n)
     k = n.kind
     if k == "CXXThisExpr":
@@ -317,6 +323,24 @@ def path(n, fn=None):
             return ("p:%s#%d" % (n.n, n.d["d"]),)
         if dk in ("Var", "Decomposition", "Binding"):
             if n.get("local"):
+                # a local reference (`auto &dom = *_domain;`) names the object it was bound to
+                refs = getattr(n.fn, "_ref_locals", None)
+                if refs is None:
+                    refs = {}
+                    for y in n.fn.all_nodes():
+                        if y.kind == "DeclStmt":
+                            for d_ in y.get("decls", []):
+                                if "init" in d_ and (d_.get("t") or "").rstrip().endswith("&") and not (d_.get("t") or "").rstrip().endswith("&&"):
+                                    refs[d_["d"]] = d_["init"]
+                    n.fn._ref_locals = refs
+                if n.d["d"] in refs and not getattr(n.fn, "_ref_busy", False):
+                    n.fn._ref_busy = True
+                    try:
+                        p = path(n.fn.node(refs[n.d["d"]]))
+                    finally:
+                        n.fn._ref_busy = False
+                    if p is not None:
+                        return p
                 return ("v:%s#%d" % (n.n, n.d["d"]),)
             return ("g:%s" % n.get("qn", n.n),)
         return None
